@@ -199,6 +199,13 @@ def partition_shape_verifier(ctx, p, cfg):
             if s["k"] == "assign" and s["rv"][0] == "agg" and s["rv"][1].get("k") == "closure":
                 cl.add(s["rv"][1]["def"])
     he = closure_calls(p, cl, (HASH_ELEMENTS,))
+    if not he:
+        # plain loop over the chunks: hash_elements(chunk) called directly on the unequal edge
+        for b in only_ne:
+            if is_call_to(h.term(b), HASH_ELEMENTS):
+                sl = arg_slice(h, h.term(b), 0)
+                if ch and ch[0] in sl["calls"]:
+                    he = [b]
     size_ok = bool(ch) and 2 in arg_slice(h, h.term(ch[0]), 1)["args"] and 1 in arg_slice(h, h.term(ch[0]), 0)["args"]
     dc = [b for b in only_ne if (callee_of(h.term(b)) or {}).get("name") == "div_ceil"]
     buf_ok = bool(dc) and 1 in arg_slice(h, h.term(dc[0]), 0)["args"] and 2 in arg_slice(h, h.term(dc[0]), 1)["args"]
@@ -232,7 +239,7 @@ def partition_shape_verifier(ctx, p, cfg):
     for (fn, table), (ty, fld) in readers.items():
         f = p.fn(VCH + fn)
         hit = False
-        for s in [s for b in f.blocks if not b.get("cleanup") for s in b["s"] if s["k"] == "assign" and s["rv"][0] == "agg" and s["rv"][1].get("k") == "closure"]:
+        for bix, s in [(bix, s) for bix, b in enumerate(f.blocks) if not b.get("cleanup") for s in b["s"] if s["k"] == "assign" and s["rv"][0] == "agg" and s["rv"][1].get("k") == "closure"]:
             c = p.funcs.get(s["rv"][1]["def"])
             if not c:
                 continue
@@ -242,7 +249,11 @@ def partition_shape_verifier(ctx, p, cfg):
             caps = set()
             for o in s["rv"][2]:
                 caps |= set(slice_field_bases(f.slice_of_operand(o, at=s["_pos"])))
-            if callee_of(hr[0])["args"][-1] == ty and fld in caps:
+            targ = callee_of(hr[0])["args"][-1]
+            # a closure that lives in a spliced generic helper: instantiate the helper's type parameters
+            sub = f.blocks[bix].get("subst") or {}
+            targ = sub.get(targ, targ)
+            if targ == ty and fld in caps:
                 # is this closure mapped over rows of `table`?
                 fw = f.forward_locals([s["p"][0]], through_calls=None)
                 for bi, t in f.calls():
